@@ -333,7 +333,7 @@ def run_raw(rec, case):
 def raw_cases(tier, rng):
     out = []
     keys = list(RAW_VALUES)
-    for _ in range(6000 if tier == 'thorough' else 500):
+    for _ in range(60000 if tier == 'thorough' else 500):
         pairs = []
         for k in keys:
             r = rng.random()
